@@ -1,6 +1,7 @@
 import Driver.Util
 import SonicModel.Impl.Str
 import SonicModel.Impl.StrBlock
+import SonicModel.Impl.StrInplace
 import SonicModel.Spec.Grammar
 namespace Driver
 open Sonic Sonic.Impl
@@ -37,10 +38,26 @@ def c09 (args : List String) : String :=
         | .err _ _ => "R"
       let mb := showB (Sonic.StrBlock.parseStringRaw false buf (s+1))
       let mbl := showB (Sonic.StrBlock.parseStringRaw true buf (s+1))
+      -- the in-place decoder on the padded copy (Impl/StrInplace.lean), and the specification's reading of that copy
+      let pb := Sonic.StrIn.pad buf
+      let showI (r : Sonic.StrIn.Res) : String := match r with
+        | .ok mem cnt e =>
+          let frame := mem.size == pb.size && (List.range pb.size).all (fun k => (k ≥ s + 1 && k < e) || mem[k]? == pb[k]?)
+          s!"S:{hex (Sonic.StrBlock.bytes mem (s+1) (s+1+cnt))}:{e}:{if frame then 1 else 0}"
+        | .err _ => "R"
+        | .fault => "FAULT"
+        | .fuel => "FUEL"
+      let showP (o : Option (List UInt8 × Nat)) : String := match o with
+        | some (bs, e) => s!"S:{hex bs}:{e}:1"
+        | none => "R"
+      let ip := if s + 1 ≤ buf.size then showI (Sonic.StrIn.run false pb (s+1)) else "skip"
+      let ipl := if s + 1 ≤ buf.size then showI (Sonic.StrIn.run true pb (s+1)) else "skip"
+      let sip := if s + 1 ≤ buf.size then showP (Spec.stringS false pb (s+1)) else "skip"
+      let sipl := if s + 1 ≤ buf.size then showP (Spec.stringS true pb (s+1)) else "skip"
       let hasBs : Bool := match strict with
         | some (_, e) => (buf.toList.drop (s+1)).take (e - 1 - (s+1)) |>.any (· == 92)
         | none => false
-      s!"spec.strict={showO strict} spec.lossy={lossyRepaired} m.strict={showM m} m.lossy={showM ml} g={ar (Spec.stringG buf (s+1)).isSome} pre8={ar (Spec.utf8FirstInvalid buf 0 ≥ (match Spec.stringG buf (s+1) with | some e => e | none => 0))} utf8={ar u} doc={ar docOk} docg={ar docOkL} bs={if hasBs then 1 else 0} m.blk={mb} m.blkS={showV m} m.blkl={mbl} m.blklS={showV ml}"
+      s!"spec.strict={showO strict} spec.lossy={lossyRepaired} m.strict={showM m} m.lossy={showM ml} g={ar (Spec.stringG buf (s+1)).isSome} pre8={ar (Spec.utf8FirstInvalid buf 0 ≥ (match Spec.stringG buf (s+1) with | some e => e | none => 0))} utf8={ar u} doc={ar docOk} docg={ar docOkL} bs={if hasBs then 1 else 0} m.blk={mb} m.blkS={showV m} m.blkl={mbl} m.blklS={showV ml} m.ip={ip} m.ipl={ipl} spec.ip={sip} spec.ipl={sipl}"
     | _, _ => "bad-args"
   | _ => "bad-args"
 
